@@ -2,6 +2,7 @@ package main
 
 import (
 	"fmt"
+	"go/constant"
 	"go/token"
 	"go/types"
 	"strings"
@@ -481,6 +482,16 @@ func (fr *frame) execBinOp(st *state, v *ssa.BinOp) {
 		case "Real":
 			// == on floats is false when an operand is NaN (so != is true)
 			t = and(notNaN(u, x), notNaN(u, y), eq(x, y))
+		case "Val":
+			t = eq(x, y)
+			// == on two interface values panics when both hold the same dynamic type and that type is not comparable
+			// (a slice, a map, a function, or a struct / array containing one)
+			if !isConstNil(v.X) && !isConstNil(v.Y) && fr.sweepOn() {
+				u.global("(declare-fun cmpable (Int) Bool)")
+				fr.oblige(st, "ifacecmp", fr.anchorText(v.Pos(), "binop"), v.Pos(),
+					fmt.Sprintf("(or (not (= (vtag %s) (vtag %s))) (cmpable (vtag %s)))", x, y, x),
+					"comparing two interface values does not panic: their common dynamic type is comparable")
+			}
 		default:
 			t = eq(x, y)
 		}
@@ -497,6 +508,13 @@ func (fr *frame) execBinOp(st *state, v *ssa.BinOp) {
 			t = app(op, x, y)
 		}
 	case token.ADD:
+		if cx, ok := v.X.(*ssa.Const); ok && xs == "Str" && cx.Value != nil && cx.Value.Kind() == constant.String {
+			if cy, ok := v.Y.(*ssa.Const); ok && cy.Value != nil && cy.Value.Kind() == constant.String {
+				// "end" + tagName with a local that is never reassigned: the concatenation of two literals is a literal
+				fr.regs[v] = u.lit(constant.StringVal(cx.Value) + constant.StringVal(cy.Value))
+				return
+			}
+		}
 		if xs == "Str" {
 			r := sc.define("concat", "Str", app("sconcat", x, y))
 			sc.assume(fmt.Sprintf("(and (= (slo %s) 0) (= (shi %s) (+ (slen %s) (slen %s))))", r, r, x, y))
@@ -1087,4 +1105,10 @@ func notNaN(u *Universe, t string) string {
 
 func fcmp(u *Universe, op, x, y string) string {
 	return and(notNaN(u, x), notNaN(u, y), app(op, x, y))
+}
+
+
+func isConstNil(v ssa.Value) bool {
+	c, ok := v.(*ssa.Const)
+	return ok && c.Value == nil
 }
